@@ -67,6 +67,82 @@ let rec unparse d = match d with
   | Pair (a, t) -> "P " ^ unparse a ^ " " ^ unparse t
   | Vec l -> String.concat " " (("V" ^ string_of_int (List.length l)) :: List.map unparse l)
 
+(* ---- datum labels (C08/Labels.v).  Wire syntax of a graph in normal form (prefix):
+     A<k>  N  P <car> <cdr>  V<n> <n items>  D<n> <body>  R<n>
+   tokens of a text: ( ) . #( #N= #N# N *)
+let rec gparse toks = match toks with
+  | [] -> failwith "graph tokens end early"
+  | t :: r ->
+    let a = String.sub t 1 (String.length t - 1) in
+    (match t.[0] with
+     | 'A' -> (GAtom (z_of_int (int_of_string a)), r)
+     | 'N' -> (GNil, r)
+     | 'R' -> (GRef (z_of_int (int_of_string a)), r)
+     | 'D' -> let (b, r1) = gparse r in (GDef (z_of_int (int_of_string a), b), r1)
+     | 'P' -> let (x, r1) = gparse r in let (y, r2) = gparse r1 in (GPair (x, y), r2)
+     | 'V' ->
+       let n = int_of_string a in
+       let rec go k r acc = if k = 0 then (List.rev acc, r) else let (x, r1) = gparse r in go (k - 1) r1 (x :: acc) in
+       let (l, r1) = go n r [] in (GVec l, r1)
+     | _ -> failwith ("bad graph token " ^ t))
+
+let ltok_of_string t =
+  let n = String.length t in
+  if t = "(" then KOpen else if t = ")" then KClose else if t = "." then KDot else if t = "#(" then KVec
+  else if n >= 3 && t.[0] = '#' && t.[n-1] = '=' then KDef (z_of_int (int_of_string (String.sub t 1 (n - 2))))
+  else if n >= 3 && t.[0] = '#' && t.[n-1] = '#' then KRef (z_of_int (int_of_string (String.sub t 1 (n - 2))))
+  else KAtom (z_of_int (int_of_string t))
+
+(* the text of lib/srfi/38.scm: no space after "(" "#(" "#n=" nor before ")", one space elsewhere *)
+let render toks =
+  let b = Buffer.create 256 in
+  let glue = ref true in
+  List.iter (fun t ->
+    let s = (match t with KOpen -> "(" | KClose -> ")" | KDot -> "." | KVec -> "#("
+             | KDef n -> "#" ^ string_of_int (int_of_z n) ^ "=" | KRef n -> "#" ^ string_of_int (int_of_z n) ^ "#"
+             | KAtom a -> string_of_int (int_of_z a)) in
+    if not !glue && t <> KClose then Buffer.add_char b ' ';
+    Buffer.add_string b s;
+    glue := (match t with KOpen | KVec | KDef _ -> true | _ -> false)) toks;
+  Buffer.contents b
+
+(* first-visit encoding of the rebuilt graph, as harness/c08_driver.scm prints the real one:
+   pairs and non-empty vectors are numbered when first met; a later visit prints R<id> *)
+let lenc v =
+  let labels : (int, lval) Hashtbl.t = Hashtbl.create 16 in     (* label -> object (LDef chain stripped) *)
+  let ids : (int, int) Hashtbl.t = Hashtbl.create 16 in          (* label -> node id *)
+  let count = ref 0 in
+  let b = Buffer.create 256 in
+  let first = ref true in
+  let emit s = (if not !first then Buffer.add_char b ' '); first := false; Buffer.add_string b s in
+  let rec strip v ls = match v with LDef (n, x) -> strip x (int_of_z n :: ls) | _ -> (v, ls) in
+  let rec collect v = match v with
+    | LDef (n, x) -> let (o, _) = strip v [] in Hashtbl.replace labels (int_of_z n) o; collect x
+    | LPair (a, d) -> collect a; collect d
+    | LVec l -> List.iter collect l
+    | _ -> () in
+  collect v;
+  let rec go v =
+    let (o, ls) = strip v [] in
+    match o with
+    | LAtom a -> emit ("I" ^ hex_of_z a)
+    | LNil -> emit "N"
+    | LVec [] -> emit "V0"
+    | LPair (a, d) -> List.iter (fun l -> Hashtbl.replace ids l !count) ls; incr count; emit "P"; go a; go d
+    | LVec l -> List.iter (fun l -> Hashtbl.replace ids l !count) ls; incr count;
+      emit ("V" ^ string_of_int (List.length l)); List.iter go l
+    | LHole n | LPtr n ->
+      let n = int_of_z n in
+      (match Hashtbl.find_opt ids n with
+       | Some id -> emit ("R" ^ string_of_int id)
+       | None ->
+         (match Hashtbl.find_opt labels n with
+          | Some (LAtom _ as x) | Some (LNil as x) | Some (LVec [] as x) -> go x
+          | Some (LPtr m) when m <> z_of_int n -> go (LPtr m)
+          | _ -> failwith "reference to an object not yet met"))
+    | LDef _ -> failwith "impossible" in
+  go v; Buffer.contents b
+
 let handle = function
   | "write" :: toks -> let (d, _) = parse toks in hex_of_bytes (write fmt_g scan_g d)
   | ["read"] | ["read"; ""] -> "EOF"
@@ -82,6 +158,13 @@ let handle = function
      | Err ReadErr -> "ERR ReadErr"
      | Err Unmodelled -> "ERR Unmodelled"
      | Err OutOfFuel -> "ERR OutOfFuel")
+  | "lwrite" :: toks -> let (g, _) = gparse toks in render (wr g)
+  | "lread" :: toks ->
+    (match read_labels (List.map ltok_of_string (List.filter (fun t -> t <> "") toks)) with
+     | LOk (v, rest) -> (try lenc v ^ (if rest = [] then "" else " TRAIL") with Failure m -> "ERR enc " ^ m)
+     | LErr LReadErr -> "ERR ReadErr"
+     | LErr LUnmodelled -> "ERR Unmodelled"
+     | LErr LOutOfFuel -> "ERR OutOfFuel")
   | ["decode"; h] ->
     let s = bytes_of_hex h in
     let nth k = (match List.nth_opt s k with Some b -> b | None -> Z0) in
